@@ -82,6 +82,8 @@ def run_check(pid: str, tier: str, repo: str, rules: Callable[[Ctx], None], expl
     t0 = time.time()
     seed = int(os.environ.get("VERIF_SEED", "0") or 0)
     evidence_path = os.path.join(VERIF, "evidence", f"{pid}.json")
+    if os.environ.get("VERIF_NO_EVIDENCE") == "1":  # trial runs on scratch copies must not touch the evidence of /repo
+        evidence_path = os.path.join(VERIF, "out", f"{pid}.scratch-evidence.json")
     report_path = os.path.join(VERIF, "out", f"{pid}.report.json")
     os.makedirs(os.path.dirname(evidence_path), exist_ok=True)
     os.makedirs(os.path.dirname(report_path), exist_ok=True)
